@@ -61,6 +61,209 @@ def base_case(prop, binding="post", rid="req-1", cfg=None, **resp_over):
     return c
 
 
+# ---------------------------------------------------------------- extension conditions (AuthnResponse.condition_ok)
+
+# schema modules an SP may name in `extension_schemas`; an extension <Condition> is understood iff its xsi:type is the
+# NAMESPACE of one of the modules handed to the AuthnResponse (only response_factory hands them on)
+EXT_MODS = ["saml2.extension.shibmd", "saml2.extension.idpdisc", "saml2.extension.mdui"]
+
+
+def ext_namespace(mod):
+    import importlib
+
+    return importlib.import_module(mod).NAMESPACE  # read from the CURRENT source
+
+
+def with_ext(case, mods):
+    """configure the SP of `case` with the extension schema modules `mods`"""
+    case["cfg"]["ext_schemas"] = list(mods)
+    case["cfg"]["ext_namespaces"] = [ext_namespace(m) for m in mods]
+    return case
+
+
+def ext_type(rng, kind, mods=None):
+    """an xsi:type value of the given class, relative to the configured modules `mods`"""
+    mods = list(mods or [])
+    if kind == "known" and mods:
+        return ext_namespace(rng.choice(mods))
+    if kind in ("known", "foreign"):  # a real schema namespace the SP was not configured with
+        rest = [m for m in EXT_MODS if m not in mods] or ["saml2.extension.mdattr"]
+        return ext_namespace(rng.choice(rest))
+    if kind == "look":
+        ns = ext_namespace(rng.choice(mods or EXT_MODS))
+        return rng.choice([ns + "x", ns[:-1], ns.upper(), " " + ns, ns + "#Condition", "ext:" + ns])
+    if kind == "qname":
+        return rng.choice(["ext:Unknown", "shibmd:ScopeCondition", "xs:string"])
+    if kind == "empty":
+        return ""
+    if kind == "missing":
+        return None
+    raise ValueError(kind)
+
+
+ENTRIES = ("client", "authn_response", "response_factory")
+
+
+# saml2.response.response_factory() builds the AuthnResponse with update() instead of loads(): the load-time comparison
+# with the caller's outstanding requests is skipped, and a Response whose InResponseTo is absent / unknown / another
+# request's yields identity as long as the bearer confirmation's InResponseTo is outstanding (reported round 5, see
+# design/C06.md).  Until that is decided, Responses that are not correlated go through response_factory only with this
+# switch on; otherwise they take the authn_response() entry point.
+RESPONSE_FACTORY_UNCORRELATED = False
+
+
+def correlated(case):
+    env, r = case["env"], case["resp"]
+    if env["binding"] in ("soap", "paos") or case["cfg"].get("allow_unsolicited"):
+        return True
+    irt = r.get("in_response_to")
+    if irt is None or irt not in [k for k, _ in env.get("outstanding", [])]:
+        return False
+    for a in r.get("assertions", []):
+        for sc in (a.get("subject") or {}).get("confs", []):
+            if sc.get("data") is not None and sc["data"].get("irt") != irt:
+                return False
+    return True
+
+
+def via_entry(case, entry):
+    """run the case through one of the three public entry points"""
+    if entry == "client":
+        return case
+    as_factory(case)
+    if entry == "response_factory" and not RESPONSE_FACTORY_UNCORRELATED and not correlated(case):
+        entry = "authn_response"
+    if entry == "response_factory":
+        case["env"]["via"] = "response_factory"
+        case["tag"] = "rf/" + case["tag"]
+    return case
+
+
+def extension_cases(rng, prop, tier, vary=None):
+    """Extension conditions: entry point x configured schema modules x list of 1-2 conditions over
+    {known, foreign namespace, look-alike, QName, empty, missing xsi:type}, with the other Conditions content present
+    or absent; `vary(case, rng)` lets the calling property cross it with its own dimension."""
+    import itertools
+
+    kinds = ["known", "foreign", "look", "qname", "empty", "missing"]
+    shapes = [[k] for k in kinds] + [["known", "known"]] + [["known", k] for k in kinds[1:]] + [[k, "known"] for k in kinds[1:]]
+    for entry, mods, shape in itertools.product(ENTRIES, ([], EXT_MODS[:1], EXT_MODS[:2]), shapes):
+        for rest in (("full", "bare") if shape in (["known"], ["foreign"], ["missing"], ["known", "known"]) else ("full",)):
+            c = with_ext(base_case(prop, binding=rng.choice(["post", "redirect"])), mods)
+            cond = c["resp"]["assertions"][0]["conditions"]
+            if rest == "bare":  # the extension conditions are the only content of <Conditions>
+                cond.update(nb=None, nooa=None, audiences=[])
+            cond["extra"] = [ext_type(rng, k, mods) for k in shape]
+            c["tag"] = "ext:%s/%d/%s/%s" % (entry, len(mods), ",".join(shape), rest)
+            yield via_entry(c, entry)
+    # signed carriers: signature verification validates the signed element against the SAML schemas, which no extension
+    # condition passes (Model/SpLex.lean `schemaView`): signed Response over a clear / an encrypted assertion, signed assertion
+    for entry, kind, signed, enc in itertools.product(ENTRIES, kinds, ("resp", "assertion", "both"), (False, True)):
+        mods = EXT_MODS[:1]
+        c = with_ext(base_case(prop, binding=rng.choice(["post", "redirect"])), mods)
+        a = c["resp"]["assertions"][0]
+        a["conditions"]["extra"] = [ext_type(rng, kind, mods)]
+        a["encrypted"] = enc
+        if signed in ("resp", "both"):
+            c["resp"]["sig"] = "valid"
+        if signed in ("assertion", "both"):
+            a["sig"] = "valid"
+        c["tag"] = "ext-signed:%s/%s/%s/%s" % (entry, kind, signed, "enc" if enc else "plain")
+        yield via_entry(c, entry)
+    if vary is not None:
+        for _ in range(120 if tier == "quick" else 1500):
+            mods = rng.choice([EXT_MODS[:1], EXT_MODS[:2], EXT_MODS[1:]])
+            c = with_ext(base_case(prop, binding=rng.choice(["post", "redirect"])), mods)
+            shape = rng.choice([["known"], ["known"], ["known", "known"], ["known", "known", "known"], ["known", "foreign"], ["look"]])
+            c["resp"]["assertions"][0]["conditions"]["extra"] = [ext_type(rng, k, mods) for k in shape]
+            c["tag"] = "extx:" + ",".join(shape)
+            vary(c, rng)
+            yield via_entry(c, rng.choice(["response_factory", "response_factory", "response_factory", "client", "authn_response"]))
+
+
+# ---------------------------------------------------------------- assertions sharing one ID
+
+def dup_id_cases(rng, prop, tier, spoil):
+    """Assertion IDs are chosen by the sender and need not be unique: a Response with one assertion in clear and one
+    EncryptedAssertion carrying the SAME ID (the saml2int count check lets exactly that shape through), either order,
+    where one of the two is fine and the other is spoiled by `spoil(assertion, rng) -> tag` in the calling property's
+    dimension.  Neither the model nor the code may let one assertion stand in for the other.  (Assertions sharing an ID
+    are left unsigned: xmlsec1 refuses documents with duplicate ID values.)"""
+    import itertools
+
+    n = 6 if tier == "quick" else 40
+    for which, enc_first, rsig, entry, _ in itertools.product(("clear", "enc", "none", "both"), (False, True), ("absent", "valid"),
+                                                              ENTRIES, range(n)):
+        if entry != "client" and (_ % 3):
+            continue
+        c = base_case(prop, binding=rng.choice(["post", "redirect"]))
+        c["resp"]["sig"] = rsig
+        if entry == "client" and rsig == "valid" and rng.random() < 0.5:
+            c["cfg"] = {}
+        clear = c["resp"]["assertions"][0]
+        enc = copy.deepcopy(clear)
+        enc["encrypted"] = True
+        same = rng.random() < 0.8
+        clear["id"] = enc["id"] = "a-same"
+        if not same:
+            enc["id"] = "a-other"
+        enc["subject"]["name_id"] = "user-2"
+        enc["authn"][0]["session_index"] = "sess-2"
+        tags = []
+        if which in ("clear", "both"):
+            tags.append("clear:" + spoil(clear, rng))
+        if which in ("enc", "both"):
+            tags.append("enc:" + spoil(enc, rng))
+        c["resp"]["assertions"] = [enc, clear] if enc_first else [clear, enc]
+        c["tag"] = "dupid:%s/%s/%s/%s" % ("same" if same else "distinct", "enc-first" if enc_first else "clear-first", rsig, ",".join(tags) or "ok")
+        yield via_entry(c, entry)
+
+
+# ---------------------------------------------------------------- EncryptedID (AuthnResponse.get_subject)
+
+def use_encrypted_id(a, decryptable=True, name=None):
+    """identify the subject of assertion `a` by an <EncryptedID> instead of a <NameID>"""
+    s = a["subject"]
+    s["enc_id"] = {"name_id": name if name is not None else (s.get("name_id") or "user-1"), "decryptable": decryptable}
+    s["name_id"] = None
+    return a
+
+
+def encrypted_id_cases(rng, prop, tier, vary=None):
+    """Subject identified by an EncryptedID: entry point x carrier {plain, encrypted assertion} x decryptable x assertion
+    signature x identifier text (plus the attribute-query answer path)."""
+    import itertools
+
+    names = ["user-1", "üser-√", "a b", "x" * 40, "u@example.org", "<&>"]
+    for entry, enc, dec, asig in itertools.product(ENTRIES, (False, True), (True, False), ("absent", "valid", "corrupted")):
+        c = base_case(prop, binding=rng.choice(["post", "redirect"]))
+        a = c["resp"]["assertions"][0]
+        use_encrypted_id(a, dec, rng.choice(names))
+        a["encrypted"] = enc
+        a["sig"] = asig
+        c["tag"] = "encid:%s/%s/%s/%s" % (entry, "enc" if enc else "plain", "ok" if dec else "foreign-key", asig)
+        yield via_entry(c, entry)
+    for dec, keep in itertools.product((True, False), (True, False)):
+        c = base_case(prop)
+        use_encrypted_id(c["resp"]["assertions"][0], dec, rng.choice(names))
+        c["tag"] = "encid-attr:%s" % ("ok" if dec else "foreign-key")
+        yield as_attr(c, keep_authn=keep)
+    # no identifier at all (neither NameID nor EncryptedID): accepted without a name (the code reports none)
+    c = base_case(prop)
+    c["resp"]["assertions"][0]["subject"]["name_id"] = None
+    c["tag"] = "encid:none"
+    yield c
+    if vary is not None:
+        for _ in range(80 if tier == "quick" else 1000):
+            c = base_case(prop, binding=rng.choice(["post", "redirect"]))
+            a = c["resp"]["assertions"][0]
+            use_encrypted_id(a, rng.random() < 0.85, rng.choice(names))
+            a["encrypted"] = rng.random() < 0.3
+            c["tag"] = "encidx"
+            vary(c, rng)
+            yield via_entry(c, rng.choice(ENTRIES))
+
+
 def random_full(rng, prop):
     """One random combination over ALL dimensions of the SP model at once (signature policy and states, addressing,
     validity windows, correlation, status/shape, 1-2 assertions plain or encrypted).  Every defect is drawn with a small
@@ -125,7 +328,21 @@ def random_full(rng, prop):
         # (a missing Subject is left to C06's own streams: the real code refuses it while loading, the model when it
         #  reaches the subject; combined with an envelope defect that returns None the two would differ in
         #  "rejected" vs "no identity", which no property distinguishes)
+        if rng.random() < 0.08:
+            # extension conditions, understood or not (only response_factory hands the configured schemas on)
+            a["conditions"]["extra"] = [ext_type(rng, rng.choice(["known", "known", "known", "foreign", "look", "missing"]), EXT_MODS[:2])
+                                        for _ in range(rng.choice([1, 1, 2]))]
         asserts.append(a)
+    if rng.random() < 0.25:
+        with_ext(c, EXT_MODS[:2])
+    if len(asserts) == 1 and rng.random() < 0.1:
+        # (with several assertions the library's whole-document decryption loop meets the EncryptedData of the
+        #  EncryptedID first; kept to single-assertion Responses, see design/05-sp.md)
+        use_encrypted_id(asserts[0], rng.random() < 0.8)
+    if len(asserts) == 2 and asserts[0]["encrypted"] != asserts[1]["encrypted"] and rng.random() < 0.5 \
+            and all(a["sig"] == "absent" for a in asserts):
+        # the sender gave both assertions the same ID (unsigned ones: xmlsec1 refuses duplicate ID values)
+        asserts[1]["id"] = asserts[0]["id"]
     r["assertions"] = asserts
     if rng.random() < 0.1 and binding != "soap":
         r["destination"] = rng.choice(["https://evil.example/acs", None, "", S.SP_ID, (r["destination"] or "x") + "x"])
